@@ -32,9 +32,44 @@ func propC14() *fw.Prop {
 	}
 }
 
-type textCheck struct {
-	c      *fw.Ctx
+// kept results of the last few parses (per worker process): a ParseResult must stay what it was
+// when it was returned, whatever is parsed afterwards.
+type keptParse struct {
+	text   string
 	origin string
+	pr     numscript.ParseResult
+	snap   string
+}
+
+var kept []keptParse
+
+func snapshotErrors(errs []numscript.ParserError) string {
+	var b strings.Builder
+	for _, e := range errs {
+		fmt.Fprintf(&b, "%d:%d-%d:%d %s|", e.Range.Start.Line, e.Range.Start.Character, e.Range.End.Line, e.Range.End.Character, e.Msg)
+	}
+	return b.String()
+}
+
+func recheckKept(c *fw.Ctx) bool {
+	for _, k := range kept {
+		now := ""
+		ok := c.Guard("GetParsingErrors(kept)", func() any { return map[string]any{"text": k.text, "origin": k.origin} }, func() {
+			errs := k.pr.GetParsingErrors()
+			now = snapshotErrors(errs)
+			_ = numscript.ParseErrorsToString(errs, k.text)
+		})
+		if !ok {
+			return false
+		}
+		c.Count("kept_results_rechecked", 1)
+		if now != k.snap {
+			c.Violation("result-changed-after-later-parse", fmt.Sprintf("the errors of an earlier parse changed after other texts were parsed: were %q, are now %q", k.snap, now),
+				map[string]any{"text": k.text, "origin": k.origin})
+			return false
+		}
+	}
+	return true
 }
 
 // checkText runs every C14 monitor on one text. knownValid: 1 valid by construction, 0 unknown.
@@ -49,6 +84,15 @@ func checkText(c *fw.Ctx, text, origin string, knownValid bool) bool {
 		return false
 	}
 	c.Eval()
+	if len(errs) > 0 {
+		kept = append(kept, keptParse{text, origin, pr, snapshotErrors(errs)})
+		if len(kept) > 3 {
+			kept = kept[1:]
+		}
+	}
+	if !recheckKept(c) {
+		return false
+	}
 	var rendered string
 	if !c.Guard("ParseErrorsToString", input, func() { rendered = numscript.ParseErrorsToString(errs, text) }) {
 		return false
